@@ -172,10 +172,10 @@ func genDatetimeText(rt *rapid.T) string {
 	if gen.Chance(rt, 4, "badmo") {
 		f.mo = gen.Pick(rt, []int64{0, 13, 99}, "badmov")
 	}
-	switch rapid.IntRange(0, 5).Draw(rt, "dsrc") {
-	case 0:
+	switch rapid.IntRange(0, 9).Draw(rt, "dsrc") {
+	case 0, 1:
 		f.d = gen.Pick(rt, []int64{28, 29, 30, 31, 1}, "dedge")
-	case 1:
+	case 2:
 		f.d = gen.Pick(rt, []int64{0, 32, 31, 30, 29}, "dbad")
 		if gen.Chance(rt, 50, "feb") {
 			f.mo = 2
@@ -196,7 +196,17 @@ func genDatetimeText(rt *rapid.T) string {
 	f.s = int64(rapid.IntRange(0, 59).Draw(rt, "s"))
 	f.ms = int64(rapid.IntRange(0, 999).Draw(rt, "ms"))
 	if gen.Chance(rt, 25, "timeedge") {
-		f.h, f.mi, f.s, f.ms = gen.Pick(rt, []int64{0, 23, 16, 7, 24}, "he"), gen.Pick(rt, []int64{0, 59, 47, 12, 60}, "mie"), gen.Pick(rt, []int64{0, 59, 4, 55, 60}, "se"), gen.Pick(rt, []int64{0, 999, 192, 191, 807, 808}, "mse")
+		f.h, f.mi, f.s, f.ms = gen.Pick(rt, []int64{0, 23, 16, 7}, "he"), gen.Pick(rt, []int64{0, 59, 47, 12}, "mie"), gen.Pick(rt, []int64{0, 59, 4, 55}, "se"), gen.Pick(rt, []int64{0, 999, 192, 191, 807, 808}, "mse")
+		if gen.Chance(rt, 15, "badtime") {
+			switch rapid.IntRange(0, 2).Draw(rt, "which") {
+			case 0:
+				f.h = 24
+			case 1:
+				f.mi = 60
+			default:
+				f.s = 60
+			}
+		}
 	}
 	f.offSign = gen.Pick(rt, []byte{'+', '-'}, "offsign")
 	f.offH = int64(rapid.IntRange(0, 23).Draw(rt, "offh"))
